@@ -741,7 +741,15 @@ func TestC10_Leader(t *testing.T) {
 	var wg sync.WaitGroup
 	for i := range scs {
 		wg.Add(1)
-		go func(i int) { defer wg.Done(); out[i] = c10ExecLeader(scs[i]) }(i) // sleep-dominated: all cases run concurrently
+		go func(i int) { // sleep-dominated: all cases run concurrently
+			defer wg.Done()
+			// with the partition rule on top of the numbering: each vBucket has exactly one owner once the group is stable
+			numbering, partition := c10ExecLeaderGroup(scs[i], []int{64, 128, 1024}[i%3])
+			out[i] = numbering
+			if numbering == "" && partition != "" {
+				out[i] = "numbering fine, but with the partition rule on top: " + partition
+			}
+		}(i)
 	}
 	wg.Wait()
 	for i, d := range out {
